@@ -294,6 +294,18 @@ def nsiLocalClustering (n : Nat) (a : Adj) (w : Nat → Rat) (i : Nat) : Rat :=
     if a i j && aplus a j l && a i l then w j * w l else 0
   (num + 2 * k * w i - w i * w i) / (k * k)
 
+
+/-! ### `weighted_local_clustering` (`network.py`, static method; [Holme2007]) -/
+
+/-- `np.linalg.matrix_power(wA, 3).diagonal() / (wA.dot(max_w).dot(wA)).diagonal()` with
+`max_w = ones * wA.max()`: the numerator is `Σ_jk w_ij w_jk w_ki`, the denominator
+`Σ_jk w_ij · max(w) · w_ki`; `none` = `nan` of the float division `0/0` -/
+def weightedLocalClustering (n : Nat) (w : Nat → Nat → Rat) (i : Nat) : Option Rat :=
+  let mx := (List.range n).foldl (fun m r => (List.range n).foldl (fun m c => max m (w r c)) m) (w 0 0)
+  let num := sumToQ n fun j => sumToQ n fun k => w i j * w j k * w k i
+  let den := sumToQ n fun j => sumToQ n fun k => w i j * mx * w k i
+  if den = 0 then none else some (num / den)
+
 /-! ### coreness by peeling (specification of `graph.coreness()`, mode = all) -/
 
 /-- degree of `v` inside the alive set, counting in- and out-links (multi-edges as igraph) -/
